@@ -354,7 +354,36 @@ func roundtripCase(src string, viaFile bool) *Case {
 	return c
 }
 
+// typed values for the interpolation stream: "the value's string form" is fmt's default form of the value, whatever its Go type
+type c02Typed struct {
+	name string
+	v    any
+}
+
+func c02TypedVals() []c02Typed {
+	type label string
+	return []c02Typed{{"int", 42}, {"int-neg", -7}, {"int8", int8(-8)}, {"int16", int16(300)}, {"int32", int32(-70000)}, {"int64", int64(1) << 40}, {"uint", uint(3)}, {"uint8", uint8(200)},
+		{"uint16", uint16(65535)}, {"uint32", uint32(4000000000)}, {"uint64", uint64(1) << 63}, {"bool-true", true},
+		{"f32-0.1", float32(0.1)}, {"f32-19.99", float32(19.99)}, {"f32-4.35", float32(4.35)}, {"f32-0.5", float32(0.5)}, {"f32-1e10", float32(1e10)}, {"f32-3.14", float32(3.14)},
+		{"f64-0.1", 0.1}, {"f64-19.99", 19.99}, {"f64-1e21", 1e21}, {"f64-1e-7", 1e-7}, {"f64-2.50", 2.50}, {"f64-neg", -0.75}, {"f64-third", 1.0 / 3.0}, {"f64-big", 123456789.125},
+		{"named-string", label("lbl")}, {"bytes-as-list", []int{1, 2, 3}}, {"strings", []string{"a", "b"}}, {"map", map[string]int{"k": 1}}, {"rune", 'x'}}
+}
+
+func interpTypedCase(kind string, t c02Typed) *Case {
+	c := interpCaseV(kind, "price: ", t.v, fmt.Sprint(t.v), " EUR")
+	c.Name = "interp-typed " + kind + " " + t.name
+	c.Input = map[string]any{"stream": "interp-typed", "kind": kind, "typed": t.name}
+	c.Tags = []string{"stream:interp-typed", "interp:" + kind}
+	c.Key = "typed|" + kind + "|" + t.name
+	return c
+}
+
 func interpCase(kind, pre, val, post string) *Case {
+	return interpCaseV(kind, pre, val, val, post)
+}
+
+// interpCaseV: `data` is what the template sees as v, `val` its string form
+func interpCaseV(kind, pre string, data any, val string, post string) *Case {
 	c := &Case{Name: "interp " + kind, Input: map[string]any{"stream": "interp", "kind": kind, "pre": pre, "val": val, "post": post}, Tags: []string{"stream:interp", "interp:" + kind}, Key: kind + pre + val + post}
 	var src string
 	switch kind {
@@ -377,7 +406,7 @@ func interpCase(kind, pre, val, post string) *Case {
 		renderPage(map[string]string{"page.vuego": `<p title="STALE-ATTR {{ v | nosuchfilter }}">STALE-TEXT {{ v | nosuchfilter }} tail</p>`}, "page.vuego", map[string]any{"v": val})
 		renderPage(map[string]string{"page.vuego": `<p>STALE-TEXT {{ v | nosuchfilter }}</p>`}, "page.vuego", map[string]any{"v": val})
 	}
-	res := renderPage(map[string]string{"page.vuego": src}, "page.vuego", map[string]any{"v": val})
+	res := renderPage(map[string]string{"page.vuego": src}, "page.vuego", map[string]any{"v": data})
 	c.Impl = res.canon()
 	v := &Verdict{OK: true}
 	c.Oracle = v
@@ -449,7 +478,7 @@ func interpCase(kind, pre, val, post string) *Case {
 				got, has = a.Val, true
 			}
 		}
-		if kind == "bound" && (val == "" || val == "false") {
+		if kind == "bound" && !c03Documented(data) {
 			if has {
 				v.OK, v.Class, v.Detail = false, "interp-bound-falsy-emitted", res.Out
 			}
@@ -478,6 +507,12 @@ func runC02(r *Run, replay *Case) {
 			r.Add(tokenizeCase(replay.Input["s"].(string)))
 		case replay.Input["stream"] == "roundtrip":
 			r.Add(roundtripCase(replay.Input["src"].(string), replay.Input["file"] == true))
+		case replay.Input["stream"] == "interp-typed":
+			for _, t := range c02TypedVals() {
+				if t.name == replay.Input["typed"] {
+					r.Add(interpTypedCase(replay.Input["kind"].(string), t))
+				}
+			}
 		case replay.Input["stream"] == "interp":
 			r.Add(interpCase(replay.Input["kind"].(string), replay.Input["pre"].(string), replay.Input["val"].(string), replay.Input["post"].(string)))
 		}
@@ -521,6 +556,10 @@ func runC02(r *Run, replay *Case) {
 			for _, v := range vals {
 				r.Add(interpCase(kind, nb.pre, v, nb.post))
 			}
+		}
+		// values that are not strings: the string form is fmt's, whatever the Go type (widths, float32, named types, lists)
+		for _, t := range c02TypedVals() {
+			r.Add(interpTypedCase(kind, t))
 		}
 	}
 }
